@@ -289,6 +289,29 @@ def rule_MP(run: Run) -> RuleResult:
     return res
 
 
+def _derived_from(block: ast.AST, seed: str) -> set:
+    """Names of the block whose value is computed from ``seed`` (plain, tuple and starred assignment targets,
+    walrus), to a fixed point."""
+    derived = {seed}
+    changed = True
+    while changed:
+        changed = False
+        for s_ in ast.walk(block):
+            tgts, val = [], None
+            if isinstance(s_, ast.Assign):
+                tgts, val = s_.targets, s_.value
+            elif isinstance(s_, (ast.AnnAssign, ast.NamedExpr)) and s_.value is not None:
+                tgts, val = [s_.target], s_.value
+            if val is None or not any(astu.contains_name(val, d_) for d_ in derived):
+                continue
+            for t_ in tgts:
+                for n_ in ast.walk(t_):
+                    if isinstance(n_, ast.Name) and n_.id not in derived:
+                        derived.add(n_.id)
+                        changed = True
+    return derived
+
+
 # ------------------------------------------------------------------ R-KN
 def rule_KN(run: Run) -> RuleResult:
     res = RuleResult("R-KN")
@@ -307,7 +330,7 @@ def rule_KN(run: Run) -> RuleResult:
                 elif ok:
                     # translated from a caught exception: key taken from it
                     h = _enclosing_handler(fn, r)
-                    ok = h is not None and h.name is not None and astu.contains_name(astu.expand_locals(a[0], astu.single_assign_map(fn)), h.name)
+                    ok = h is not None and h.name is not None and any(astu.contains_name(a[0], d_) for d_ in _derived_from(h, h.name))
                     if ok and r.cause is None:
                         ok = False
                 res.add(f"{q}:raise KeyNotFoundError names key and source", ok, m.relpath, r.lineno, ast.unparse(r)[:100], nec)
